@@ -1,8 +1,8 @@
 INIT GInit
 NEXT GNext
 CONSTANTS
-  MaxStmts = 8
-  MaxDepth = 3
+  MaxStmts = 6
+  MaxDepth = 2
   Kinds = {"if", "while", "whiletrue", "for", "with", "withsupp", "try"}
 INVARIANT EmitDone
 CHECK_DEADLOCK FALSE
